@@ -104,9 +104,12 @@ class Evaluators(Unit):
                 failing = [
                     "<% ctx().undefined_var %>", "<% ctx(d).missing %>", "<% ctx(s) + 1 %>", "<% no_such_fn(1) %>",
                     "<% ctx(l).first() %>", "<% ctx(l)[3] %>", "<% ctx(one) / ctx(n) %>", "<% ctx(d).a.b.c %>",
-                    "<% int(ctx(s)) %>", "<% ctx(l).select($.x).first() %>",
+                    "<% int(ctx(s)) %>", "<% ctx(l).select($.x).first() %>", "<% ctx(d)[ctx(one)] %>", "<% ctx(d)[ctx(n)] %>",
+                    "<% ctx(d).get(5).x %>", "<% dict(a=>1)[ctx(one)] %>",
                     "{{ ctx().undefined_var }}", "{{ ctx('d').missing.deeper }}", "{{ ctx('s') + 1 }}", "{{ no_such_fn(1) }}",
                     "{{ ctx('l')[3] }}", "{{ ctx('one') / ctx('n') }}", "{{ ctx('l') | first | int + ctx('s') }}",
+                    "{% raw %}{{ keep }}{% endraw %} and {{ ctx().undefined_var }}",
+                    "{% raw %}{{ keep }}{% endraw %} {{ ctx('d').missing.deeper }}",
                 ]
                 for stmt in failing:
                     got = None
@@ -179,6 +182,13 @@ class Shorthands(Unit):
                 except Exception as ex:
                     ok, got = False, repr(ex)
                 ctx.oblige("C20.params.roundtrip", ok, None, {"text": s, "want": repr(v), "got": repr(got)})
+            dup = "a=1 b=<% ctx().a %> a=3"
+            try:
+                got = args_util.parse_inline_params(dup)
+                ok = got == [{"a": 1}, {"b": "<% ctx().a %>"}, {"a": 3}]
+            except Exception as ex:
+                ok, got = False, repr(ex)
+            ctx.oblige("C20.params.roundtrip", ok, None, {"text": dup, "got": repr(got)})
             for combo in itertools.combinations(PARAM_VALUES, 2):
                 vs = list(combo)
                 s = " ".join(render_param(k, v) for k, v in zip(keys, vs))
@@ -258,6 +268,27 @@ class InspectContext(Unit):
                             ok, msgs = False, repr(ex)
                         ctx.oblige("C15.ctx.unassigned_reported", ok, None,
                                    {"language": lang, "case": case, "position": pos, "report": msgs})
+            # a task reached by two transitions, only one of which publishes the variable it reads: unassigned
+            # on one executable path, whichever transition is examined first
+            for order in (0, 1):
+                trs = [{"publish": [{"x": 1}], "do": "t3"}, {"when": "<% failed() %>", "do": "t3"}]
+                if order:
+                    trs = list(reversed(trs))
+                d = {"version": 1.0, "tasks": {"t1": {"action": "core.noop", "next": trs},
+                                               "t3": {"action": "core.echo", "input": {"m": "<% ctx().x %>"}}}}
+                d2 = {"version": 1.0, "tasks": {"t1": {"action": "core.noop", "next": [{"do": "a, b"}]},
+                                                "a": {"action": "core.noop", "next": [{"publish": [{"x": 1}], "do": "t3"}] if not order else [{"do": "t3"}]},
+                                                "b": {"action": "core.noop", "next": [{"do": "t3"}] if not order else [{"publish": [{"x": 1}], "do": "t3"}]},
+                                                "t3": {"action": "core.echo", "input": {"m": "<% ctx().x %>"}}}}
+                for k, dd in enumerate((d, d2)):
+                    try:
+                        rep = native_specs.WorkflowSpec(dd).inspect()
+                        msgs = [x["message"] for x in rep.get("context", [])]
+                        ok = any('"x"' in m for m in msgs)
+                    except Exception as ex:
+                        ok, msgs = False, repr(ex)
+                    ctx.oblige("C15.ctx.unassigned_reported", ok, None,
+                               {"case": "two inbound transitions, one publishes", "shape": k, "publisher_first": not order, "report": msgs})
             # one property referencing the same unassigned variables from several expressions
             d = {"version": 1.0, "tasks": {"t1": {"action": "core.noop", "input": {
                 "p": "<% ctx().zeta %> {{ ctx().alpha }} <% ctx().mid %> {{ ctx().zeta }} <% ctx().alpha %>"}}}}
@@ -281,6 +312,8 @@ class OrderIndependence(Unit):
     functions = ["orquesta.expressions.base.extract_vars", "orquesta.expressions.yql.YAQLEvaluator.extract_vars",
                  "orquesta.expressions.jinja.JinjaEvaluator.extract_vars"]
     obligations = {
+        "C19.perm.evaluate": {"props": ["C19", "C11"], "text":
+            "evaluating a string with several failing expressions records the same error whatever the iteration order of any internal set"},
         "C19.perm.extract_vars": {"props": ["C19"], "text":
             "extract_vars returns the same list for every iteration order of its internal sets (the engine explores all orders for <= 3 elements, rotations and reversal beyond): the inspection report cannot depend on PYTHONHASHSEED through it"},
     }
@@ -309,7 +342,25 @@ class OrderIndependence(Unit):
             self._oblige_after(ctx, "C19.perm.extract_vars", same,
                                {"statement": repr(stmt), "orders_explored": len(outs),
                                 "distinct_results": len({repr(o) for o in outs})})
-        ctx.bounded.append({"unit": self.name, "bound": "4 statements, all set orders"})
+        # a string with two failing YAQL expressions: the recorded error must not depend on a set order
+        data = {"d": {"a": 1}}
+        for stmt in ["<% ctx(d).hostname %> and <% ctx(d).address %>", "<% ctx(d).a %> <% ctx(d).zz %> <% ctx(d).yy %>"]:
+            outs = []
+
+            def thunk2(e, stmt=stmt):
+                e.overrides[expr_base.get_evaluators] = lambda eng: expr_base.get_evaluators()
+                from pyvc.engine import Raised as _R
+                try:
+                    r = e.call(expr_base.evaluate, [stmt, dict(data)], {})
+                    outs.append(("value", repr(r)))
+                except _R as rr:
+                    outs.append(("raised", rr.cls.__name__, str(rr.exc_args)))
+                return None
+
+            ctx.eng.explore(thunk2)
+            self._oblige_after(ctx, "C19.perm.evaluate", all(o == outs[0] for o in outs),
+                               {"statement": stmt, "orders_explored": len(outs), "distinct_results": len(set(outs))})
+        ctx.bounded.append({"unit": self.name, "bound": "4 statements + 2 evaluations, all set orders"})
 
     def _oblige_after(self, ctx, name, ok, info):
         # evaluated outside a path: record directly (concrete verdict)
